@@ -180,8 +180,14 @@ def stale_exception_in_cleanup(res):
         return []
     v = View(res)
     evs = v.evs
-    start = next((e.seq for e in evs if e.kind == "plan" and e.d["what"] == "yield" and e.d.get("site") in fin), None)
-    if start is None:
+    start_ev = next((e for e in evs if e.kind == "plan" and e.d["what"] == "yield" and e.d.get("site") in fin), None)
+    if start_ev is None:
+        return []
+    start = start_ev.seq
+    # (a status that the device finished a loop step or two before the clean-up began reaches the engine - through
+    # call_soon_threadsafe - only after it: that failure is news to the engine while the clean-up runs)
+    late_news = any(e.kind == "status" and not e.d["ok"] and start_ev.step - 3 <= e.step and e.seq < start and abs(e.t - start_ev.t) < 1e-9 for e in evs)
+    if late_news:
         return []
     for t in evs:
         if t.kind == "plan" and t.d["what"] == "thrown" and t.d.get("site") in fin and t.seq > start:
